@@ -1,6 +1,7 @@
 package queues
 
 import (
+	"github.com/kercylan98/minotaur/toolkit/verifhook"
 	"sync/atomic"
 	"unsafe"
 )
@@ -23,15 +24,21 @@ func NewLFQueue() *LFQueue {
 func (q *LFQueue) Push(value unsafe.Pointer) {
 	node := unsafe.Pointer(&lfNode{value: value})
 	for {
+		verifhook.At("lfq.pu.tail")
 		tail := atomic.LoadPointer(&q.tail)
+		verifhook.At("lfq.pu.next")
 		next := atomic.LoadPointer(&(*lfNode)(tail).next)
+		verifhook.At("lfq.pu.re")
 		if tail == atomic.LoadPointer(&q.tail) {
 			if next == nil {
+				verifhook.At("lfq.pu.cas")
 				if atomic.CompareAndSwapPointer(&(*lfNode)(tail).next, next, node) {
+					verifhook.At("lfq.pu.swing")
 					atomic.CompareAndSwapPointer(&q.tail, tail, node)
 					return
 				}
 			} else {
+				verifhook.At("lfq.pu.help")
 				atomic.CompareAndSwapPointer(&q.tail, tail, next)
 			}
 		}
@@ -40,17 +47,23 @@ func (q *LFQueue) Push(value unsafe.Pointer) {
 
 func (q *LFQueue) Pop() unsafe.Pointer {
 	for {
+		verifhook.At("lfq.po.head")
 		head := atomic.LoadPointer(&q.head)
+		verifhook.At("lfq.po.tail")
 		tail := atomic.LoadPointer(&q.tail)
+		verifhook.At("lfq.po.next")
 		next := atomic.LoadPointer(&(*lfNode)(head).next)
+		verifhook.At("lfq.po.re")
 		if head == atomic.LoadPointer(&q.head) {
 			if head == tail {
 				if next == nil {
 					return nil
 				}
+				verifhook.At("lfq.po.help")
 				atomic.CompareAndSwapPointer(&q.tail, tail, next)
 			} else {
 				value := (*lfNode)(next).value
+				verifhook.At("lfq.po.cas")
 				if atomic.CompareAndSwapPointer(&q.head, head, next) {
 					return value
 				}
